@@ -4,7 +4,9 @@
 
 use serde::{Deserialize, Serialize};
 
-pub const NAMES: [&str; 6] = ["alpha", "bravo", "carol", "delta", "echo", "foxy"];
+/// the third name is the concatenation of the first two on purpose: keys built by gluing names
+/// together must not confuse {alpha, bravo} with {alphabravo}
+pub const NAMES: [&str; 6] = ["alpha", "bravo", "alphabravo", "delta", "echo", "foxy"];
 pub const SCOPES: [&str; 5] = ["function", "class", "module", "package", "session"];
 
 /// Root of the in-memory workspace. The path does not exist on disk on purpose.
@@ -150,6 +152,9 @@ pub struct TestSpec {
     pub is_async: bool,
     #[serde(default)]
     pub body_uses: Vec<usize>,
+    /// parameters with a default value (`name=None`): declared names, but not fixture requests
+    #[serde(default)]
+    pub defaulted: Vec<usize>,
 }
 
 #[derive(Clone, Debug, PartialEq, Eq, Hash, Serialize, Deserialize)]
